@@ -756,8 +756,11 @@ type r2pMethodInfo struct {
 	// reorder: list fields whose collected texts are sorted / reversed / shuffled before they are printed -> witness (R-print-order)
 	reorder map[string]string
 	consts  map[string]bool // complete constant texts the printer returns on some path (no holes)
-	root    string          // name of the receiver
-	rets    []r2pRet        // symbolic result of every return path
+	// listLoops: list fields the printer walks in a loop; cut: … whose loop is left early / skips an element -> witness
+	listLoops map[string]bool
+	cut       map[string]string
+	root      string   // name of the receiver
+	rets      []r2pRet // symbolic result of every return path
 	// frame: the delimiters every path of this printer starts and ends with ("{", "}"), "" when not uniform
 	frameOpen, frameClose string
 	// R-print-payload / R-print-bare-guard (rules_r3print_fmt.go)
@@ -997,6 +1000,85 @@ func r2pPrintMethod(c *Ctx, m *travModel, mi *r2pMethodInfo) []Obligation {
 
 	body, loops := r2pWrap(fd.Body)
 	env.loops = loops
+	// loops over list fields of the node: loop statement (copy) -> the list expression
+	loopList := map[ast.Stmt]ast.Expr{}
+	for _, mk := range loops.marker {
+		loopList[mk.loop] = mk.x
+	}
+	mi.listLoops, mi.cut = map[string]bool{}, map[string]string{}
+	loopField := map[ast.Stmt]string{} // loop -> list field
+	loopLeave := map[ast.Stmt]string{} // loop -> how it is left early
+	loopAdds := map[ast.Stmt]int{}     // loop -> completed iterations that add the element's text
+	loopSkips := map[ast.Stmt]string{} // loop -> a completed iteration that does not
+	listField := func(st *r2pState, x ast.Expr) string {
+		parts := strings.Split(env.pathOf(st, x), ".")
+		if len(parts) != 2 || parts[0] != root {
+			return ""
+		}
+		if f := mi.s.Field(parts[1]); f != nil && travNeed(rolePrint, f) == 2 {
+			return f.Name
+		}
+		return ""
+	}
+	for lp, x := range loopList {
+		fname := listField(nil, x)
+		if fname == "" {
+			continue
+		}
+		loopField[lp] = fname
+		// leaving the loop early: a `break` of this loop or a `return` inside its body
+		var lbody *ast.BlockStmt
+		switch l := lp.(type) {
+		case *ast.RangeStmt:
+			lbody = l.Body
+		case *ast.ForStmt:
+			lbody = l.Body
+		}
+		var scan func(n ast.Node, inner bool)
+		scan = func(root ast.Node, inner bool) {
+			ast.Inspect(root, func(n ast.Node) bool {
+				if n == nil || n == root {
+					return true
+				}
+				switch y := n.(type) {
+				case *ast.FuncLit:
+					return false
+				case *ast.ForStmt, *ast.RangeStmt, *ast.SwitchStmt, *ast.TypeSwitchStmt, *ast.SelectStmt:
+					scan(y, true)
+					return false
+				case *ast.BranchStmt:
+					if y.Tok == token.BREAK && y.Label == nil && !inner {
+						if _, ok := loopLeave[lp]; !ok {
+							loopLeave[lp] = fmt.Sprintf("`break` at line %d leaves the loop over %s before the remaining elements are printed", env.line(y.Pos()), exprStr(x))
+						}
+					}
+				case *ast.ReturnStmt:
+					if _, ok := loopLeave[lp]; !ok {
+						loopLeave[lp] = fmt.Sprintf("`return` at line %d inside the loop over %s ends the printer before the remaining elements are printed", env.line(y.Pos()), exprStr(x))
+					}
+				}
+				return true
+			})
+		}
+		if lbody != nil {
+			scan(lbody, false)
+		}
+	}
+	countHoles := func(st *r2pState, p string) int {
+		n := 0
+		for _, t := range st.tmpl {
+			for _, sg := range t {
+				if sg.hole != nil && !sg.imp {
+					for hp := range sg.hole {
+						if hp == p || strings.HasPrefix(hp, p+".") {
+							n++
+						}
+					}
+				}
+			}
+		}
+		return n
+	}
 	type miss struct {
 		trace, ret string
 		line       int
@@ -1138,6 +1220,23 @@ func r2pPrintMethod(c *Ctx, m *travModel, mi *r2pMethodInfo) []Obligation {
 			}
 			return st, true
 		},
+		OnLoopIter: func(loop ast.Stmt, before, after *r2pState) {
+			// an iteration over a list of the node that completes adds the element's text to what is being built
+			x, ok := loopList[loop]
+			if !ok {
+				return
+			}
+			fname := listField(after, x)
+			if fname == "" {
+				return
+			}
+			p := env.pathOf(after, x)
+			if countHoles(after, p) > countHoles(before, p) {
+				loopAdds[loop]++
+			} else if _, ok := loopSkips[loop]; !ok {
+				loopSkips[loop] = fmt.Sprintf("an iteration of the loop over %s completes without adding the element's text to the result (path [%s])", exprStr(x), after.traceStr())
+			}
+		},
 		OnRange: func(st *r2pState, r *ast.RangeStmt) (*r2pState, bool) {
 			env.onRange(st, r)
 			// a range variable has no template of its own
@@ -1232,6 +1331,41 @@ func r2pPrintMethod(c *Ctx, m *travModel, mi *r2pMethodInfo) []Obligation {
 	if w.Overflow || len(w.Unsupported) > 0 {
 		obs = append(obs, Obligation{Key: keyBase + "|paths enumerable", Pos: c.Pos(fd.Pos()), Status: Undecided,
 			Detail: fmt.Sprintf("path enumeration of the printer gave up (overflow=%v, unsupported statements=%d)", w.Overflow, len(w.Unsupported))})
+	}
+	// only loops that print (add the element's text on some iteration path) are judged: a loop that measures or counts is none
+	var lps []ast.Stmt
+	for lp := range loopField {
+		lps = append(lps, lp)
+	}
+	sort.Slice(lps, func(i, j int) bool { return lps[i].Pos() < lps[j].Pos() })
+	for _, lp := range lps {
+		if loopAdds[lp] == 0 {
+			continue
+		}
+		f := loopField[lp]
+		mi.listLoops[f] = true
+		if w := loopLeave[lp]; w != "" && mi.cut[f] == "" {
+			mi.cut[f] = w
+		}
+		if w := loopSkips[lp]; w != "" && mi.cut[f] == "" {
+			mi.cut[f] = w
+		}
+	}
+	var lf []string
+	for f := range mi.listLoops {
+		lf = append(lf, f)
+	}
+	sort.Strings(lf)
+	for _, f := range lf {
+		ob := Obligation{Key: keyBase + "|" + mi.s.Short() + "." + f + "|every element of the list is printed", Pos: c.Pos(fd.Pos()), Nontrivial: true}
+		if w := mi.cut[f]; w != "" {
+			ob.Status = Violated
+			ob.Detail = fmt.Sprintf("[print] %s walks the list %s.%s in a loop, but %s: the elements that follow (or the skipped one) are part of the program — e.g. the match arms after a default arm are still tested before it by both engines",
+				FuncName(fd), mi.s.Short(), f, w)
+		} else {
+			ob.Status, ob.Detail = Discharged, fmt.Sprintf("[print] the loop over %s.%s is never left early and every completed iteration adds the element's text", mi.s.Short(), f)
+		}
+		obs = append(obs, ob)
 	}
 	for _, rq := range reqs {
 		if rq.partialOf != "" {
